@@ -127,10 +127,17 @@ def build(repo=None):
         eng.method_models["items"] = lambda e, s, recv, a, kw, nd: [(s, Opaque("items"))] if isinstance(recv, Opaque) else None
         eng.method_models["get"] = lambda e, s, recv, a, kw, nd: [(s, Opaque("got"))] if isinstance(recv, Opaque) else None
         eng.method_models["make_transparent"] = lambda e, s, recv, a, kw, nd: [(s, NONE)]
+        def m_get_type_hints(e, s, a, kw, nd):
+            # Annotated[...] metadata (e.g. beartype validators) must survive into the synthesised signatures: include_extras=True
+            ie = kw.get("include_extras")
+            ok = len(a) == 1 and isinstance(ie, Z) and ie.kind == "bool" and z3.is_true(z3.simplify(ie.t))
+            e.oblige(s, "C07:annotations-are-resolved-from-the-function-itself-with-include_extras=True(Annotated-metadata-reaches-the-checker)", z3.BoolVal(bool(ok)))
+            return [(s, Opaque("hints")), (s.fork(None, "hints:NameError"), Raised(Exc("NameError", origin="get_type_hints")))]
+
         eng.globals.update({
             "_sentinel": sentinel, "_tb_flag": mkbool(False), "config": cfg, "jaxtyped": Fn("jaxtyped", model=m_jaxtyped),
             "_make_fn_with_signature": Fn("_make_fn_with_signature", model=m_make), "Any": Opaque("sentinel:Any"),
-            "get_type_hints": Fn("get_type_hints", model=lambda e, s, a, kw, nd: [(s, Opaque("hints")), (s.fork(None, "hints:NameError"), Raised(Exc("NameError", origin="get_type_hints")))]),
+            "get_type_hints": Fn("get_type_hints", model=m_get_type_hints),
             "get_args": Fn("get_args", model=lambda e, s, a, kw, nd: [(s, Tup([]))]),
             "ft": Opaque("global:ft"), "inspect": Opaque("global:inspect", attrs={"Signature": Opaque("Signature", attrs={"empty": Opaque("sentinel:empty")})}), "dataclasses": Opaque("global:dataclasses"), "warnings": Opaque("global:warnings"),
             "weakref": Opaque("global:weakref"), "__name__": Z("str", z3.StringVal("jaxtyping._decorator")), "AbstractArray": Cls("AbstractArray"), "issubclass": Fn("issubclass", model=lambda e, s, a, kw, nd: [(s, mkbool(False))]),
